@@ -83,6 +83,8 @@ pub enum Tgt {
     SendThenFin(Vec<u8>),
     /// read `n` bytes, then close completely
     ReadThenClose(usize),
+    /// an HTTP response header, then `chunks` pieces of 1 KiB, one every `gap_ms` (a slow download)
+    Drip { chunks: usize, gap_ms: u64 },
 }
 
 #[derive(Clone, Debug, Default)]
@@ -130,6 +132,28 @@ pub fn start_internet(behaviour: impl Fn(SocketAddr) -> Tgt + Send + Sync + 'sta
 }
 
 async fn run_target(stream: TcpStream, tgt: Tgt, conns: Arc<Mutex<Vec<TConn>>>, slot: usize) {
+    if let Tgt::Drip { chunks, gap_ms } = &tgt {
+        let (chunks, gap_ms) = (*chunks, *gap_ms);
+        let (mut r, mut w) = stream.into_split();
+        anytls_simnet::spawn(async move {
+            let _ = w.write_all(b"HTTP/1.1 200 OK\r\nContent-Type: application/octet-stream\r\n\r\n").await;
+            for i in 0..chunks {
+                if w.write_all(&crate::sim::content(0xD81 + i as u64, 1024)).await.is_err() {
+                    break;
+                }
+                sleep(Duration::from_millis(gap_ms)).await;
+            }
+            std::future::pending::<()>().await;
+        });
+        let mut buf = vec![0u8; 4096];
+        loop {
+            match r.read(&mut buf).await {
+                Ok(0) | Err(_) => break,
+                Ok(n) => conns.lock().unwrap()[slot].received.extend_from_slice(&buf[..n]),
+            }
+        }
+        return;
+    }
     let (mut r, mut w) = stream.into_split();
     let mut limit: Option<usize> = None;
     let mut echo = false;
@@ -144,6 +168,7 @@ async fn run_target(stream: TcpStream, tgt: Tgt, conns: Arc<Mutex<Vec<TConn>>>, 
             let _ = w.shutdown().await;
         }
         Tgt::ReadThenClose(n) => limit = Some(*n),
+        Tgt::Drip { .. } => {}
     }
     let mut buf = vec![0u8; 8192];
     loop {
